@@ -1,3 +1,4 @@
 import CrdtModel.Audit.Tool
 import CrdtModel.Props.C04
 #audit_ns Crdt.C04
+#audit_ns Crdt.OrswotSpec
